@@ -272,7 +272,7 @@ def w_history(ctx, rng, i):
         who = live[rng.integers(0, len(live))]
         ev = ["fresh", "same_object_edited", "near_equal", "other_size", "shape", "on_copy", "repeat_values", "retry_failed",
               "int_or_f32", "on_shared_edges", "reparameterised", "inverse_taken", "previous_result_edited", "non_finite_points",
-              "readonly_view_of_a_buffer", "single_precision_rounding_of_the_previous", "longer_transform_derived"][rng.integers(0, 17)]
+              "readonly_view_of_a_buffer", "single_precision_rounding_of_the_previous", "longer_transform_derived", "sibling_built_from_its_vector"][rng.integers(0, 18)]
         n = n0
         outside = 0.35 if (is_pwa and rng.random() < 0.35) else 0.0
         if ev == "fresh" or prev is None:
@@ -298,6 +298,18 @@ def w_history(ctx, rng, i):
             x = prev.astype(np.float32)
             if rng.random() < 0.5:
                 x = x.astype(float)
+        elif ev == "sibling_built_from_its_vector":
+            # the transform lends its class to a sibling (from_vector with other parameters) / is asked for the parameters of an
+            # inverse: queries - it goes on mapping the same values to the same results
+            try:
+                with taps.quiet():
+                    v_ = np.array(who.as_vector(), dtype=float)
+                    who.from_vector(v_ * 1.1 + 0.05)
+                    if hasattr(who, "pseudoinverse_vector"):
+                        who.pseudoinverse_vector(v_ * 0.9 + 0.02)
+            except Exception:
+                continue
+            x = prev.copy()
         elif ev == "longer_transform_derived":
             # something is derived from the transform out of place (composed with a further step) and thrown away: a query
             import menpo.transform as _mt9
